@@ -15,8 +15,13 @@ PID = "C01"
 def run_case(case, eng, res):
     known = {k["id"]: k for k in H.load_known(PID)}
 
+    rows = None
+    if case["op"] == "create_schedule":
+        from harness.timeprops import rows_of
+        rows = rows_of(case["zone"])
+
     def body(path):
-        return A.run_op(path, case)
+        return A.run_op(path, case, zone_rows=rows)
 
     npaths = 0
     for path, run, exc in eng.explore(body):
@@ -45,7 +50,7 @@ def run_case(case, eng, res):
                 if m is not None:
                     res["violations"].append({
                         "what": "C01 frame %d of %s fails %s" % (i, run.op, name), "case": case,
-                        "replay": A.replay_spec(run, m, "C01"),
+                        "replay": A.replay_spec(run, m, "C01", zone=_zone(path, m, rows)),
                     })
                 for kid, k, reg in excl:
                     qq = b_and(bad, reg)
@@ -53,7 +58,8 @@ def run_case(case, eng, res):
                         res["known_hits"].append({"id": kid, "what": k["what"]})
         m = path.witness()
         res["witnesses"].append({
-            "replay": A.replay_spec(run, m, "C01"),
+            "replay": A.replay_spec(run, m, "C01", zone=_zone(path, m, rows)),
+            "gapfold": case["op"] == "create_schedule",
             "expected": {"frames": [C.ev_seq(m, f).hex() for f in run.frames],
                          "blobframes": [i for i, f in enumerate(run.frames) if f.has_blob()],
                          "outcome": run.outcome if run.outcome == "exc" else "ok"},
@@ -65,6 +71,13 @@ def run_case(case, eng, res):
         raise E.HarnessError("no feasible path")
 
 
+def _zone(path, m, rows):
+    if rows is None:
+        return None
+    te = path.notes["timeenv"]
+    return rows[C.ev_int(m, te.zi)]["zone"]
+
+
 def known_region(kid, run, frame, idx):
     """known findings are identified by a predicate over the counterexample"""
     return None
@@ -72,12 +85,15 @@ def known_region(kid, run, frame, idx):
 
 def main(tier):
     t0 = time.time()
+    from harness import timeprops
+    timeprops.TIER[0] = tier
     from shadow import floats as FL
     FL.lemma_floor_div(60, 32)
     FL.lemma_amps(65535)
     cases = []
     for op in A.T1_OPS + A.T2_OPS:
         if op == "create_schedule":
+            cases += [{"op": op, "zone": z} for z in (["UTC", "Asia/Jerusalem"] if tier == "quick" else ["UTC", "Asia/Jerusalem", "Australia/Lord_Howe", "America/St_Johns"])]
             continue
         cases += A.op_cases(op, tier)
     results = H.run_cases("harness.C01", "run_case", cases, timeout_ms=60000 if tier == "quick" else 600000)
